@@ -88,6 +88,15 @@ CHECKS = {
              'buffer events (overwrite, reverse, extend, clear) per seed of every class, both directions. '
              '(c) construct / mutate-in-place / construct histories for every class with defaulted arguments.',
         design='§5 C13'),
+    'C14': dict(
+        technique='exhaustive enumeration of objects x process configurations (hash seeds, insertion orders, '
+                  'serialisation histories)',
+        text='Every object within one deviation of every seed object of every class: JSON parses, Markdown is text, '
+             'deep copy / equal parse-compose round trip / every insertion order of 2-4 element set and dict fields '
+             'serialise identically; the same deterministic object list is serialised under PYTHONHASHSEED 0-3 '
+             '(0-15 thorough) in separate processes and compared by digest; every ordered pair of a 48-object panel '
+             'is serialised in one process and compared with a fresh process.',
+        design='§5 C14'),
     'C17': dict(
         technique='exhaustive explicit-state enumeration (all pairs, triples, permutations) on the real class',
         text='Complete: every ordered pair and triple of all defined versions, every permutation of every '
